@@ -73,7 +73,7 @@ theorem SE2.compose_inverse (dbg : Bool) {X : SE2 K} (hX : SE2.Valid X) :
 end
 
 /-- `q̄ q = 1` for a unit quaternion -/
-theorem SO3.conj_mul_self (q : Quat ℝ) (hq : q.sqn = 1) : q.conj.mul q = ⟨0, 0, 0, 1⟩ := by
+theorem SO3.conj_mul_self_real (q : Quat ℝ) (hq : q.sqn = 1) : q.conj.mul q = ⟨0, 0, 0, 1⟩ := by
   unfold Quat.sqn at hq
   simp only [Quat.mul, Quat.conj]
   congr 1
@@ -87,7 +87,7 @@ theorem SO3.inverse_compose (dbg : Bool) {X : SO3 ℝ} (hX : SO3.Valid X) :
   have hXi : SO3.Valid (⟨X.q.conj⟩ : SO3 ℝ) := by unfold SO3.Valid at *; rw [Quat.sqn_conj]; exact hX
   have hc := SO3.compose_ok dbg hXi hX
   simp only at hc
-  rw [SO3.conj_mul_self _ hX] at hc
+  rw [SO3.conj_mul_self_real _ hX] at hc
   simp only [SO3.inverse_ok dbg hX, hc, except_ok_bind, bind, Except.bind]
 
 theorem SE3.inverse_compose (dbg : Bool) {X : SE3 ℝ} (hX : SE3.Valid X) :
@@ -95,7 +95,7 @@ theorem SE3.inverse_compose (dbg : Bool) {X : SE3 ℝ} (hX : SE3.Valid X) :
   have hXi : SE3.Valid (⟨((SO3.mk X.q.conj).act X.t).neg, X.q.conj⟩ : SE3 ℝ) := by unfold SE3.Valid at *; simp only; rw [Quat.sqn_conj]; exact hX
   have hc := SE3.compose_ok dbg hXi hX
   simp only at hc
-  rw [SO3.conj_mul_self _ hX] at hc
+  rw [SO3.conj_mul_self_real _ hX] at hc
   have ht : ((⟨((SO3.mk X.q.conj).act X.t).neg, X.q.conj⟩ : SE3 ℝ).rotation.mulVec X.t).add ((SO3.mk X.q.conj).act X.t).neg = ⟨0, 0, 0⟩ := by
     simp only [SE3.rotation, SO3.rotation, SE3.asSO3, SO3.act, M3.mulVec, V3.add, V3.neg, sum3, V3.mk.injEq]
     refine ⟨?_, ?_, ?_⟩ <;> ring
@@ -108,7 +108,7 @@ theorem SE23.inverse_compose (dbg : Bool) {X : SE23 ℝ} (hX : SE23.Valid X) :
     unfold SE23.Valid at *; simp only; rw [Quat.sqn_conj]; exact hX
   have hc := SE23.compose_ok dbg hXi hX
   simp only at hc
-  rw [SO3.conj_mul_self _ hX] at hc
+  rw [SO3.conj_mul_self_real _ hX] at hc
   have ht : ((⟨((SO3.mk X.q.conj).act X.t).neg, X.q.conj, ((SO3.mk X.q.conj).act X.v).neg⟩ : SE23 ℝ).rotation.mulVec X.t).add ((SO3.mk X.q.conj).act X.t).neg = ⟨0, 0, 0⟩ := by
     simp only [SE23.rotation, SO3.rotation, SE23.asSO3, SO3.act, M3.mulVec, V3.add, V3.neg, sum3, V3.mk.injEq]
     refine ⟨?_, ?_, ?_⟩ <;> ring
@@ -124,7 +124,7 @@ theorem SGal3.inverse_compose (dbg : Bool) {X : SGal3 ℝ} (hX : SGal3.Valid X) 
     unfold SGal3.Valid at *; simp only; rw [Quat.sqn_conj]; exact hX
   have hc := SGal3.compose_ok dbg hXi hX
   simp only at hc
-  rw [SO3.conj_mul_self _ hX] at hc
+  rw [SO3.conj_mul_self_real _ hX] at hc
   have hp : (((⟨((SO3.mk X.q.conj).act (X.p.sub (X.v.smul X.t))).neg, X.q.conj, ((SO3.mk X.q.conj).act X.v).neg, -X.t⟩ : SGal3 ℝ).rotation.mulVec X.p).add
       ((((SO3.mk X.q.conj).act X.v).neg).smul X.t)).add ((SO3.mk X.q.conj).act (X.p.sub (X.v.smul X.t))).neg = ⟨0, 0, 0⟩ := by
     simp only [SGal3.rotation, SO3.rotation, SGal3.asSO3, SO3.act, M3.mulVec, V3.add, V3.neg, V3.sub, V3.smul, sum3, V3.mk.injEq]
